@@ -1,0 +1,38 @@
+"""
+Verification hooks (off unless the environment variable JEDI_VERIF=1 is set).
+
+``trace(event, **fields)`` appends one JSON line per linearization point to the
+file named by JEDI_VERIF_TRACE (helper processes append to
+``<file>.helper.<pid>``), with a per-process sequence number.  Nothing here
+changes behaviour; with the guard off ``ON`` is False and no hook runs.
+"""
+import os
+
+ON = os.environ.get('JEDI_VERIF') == '1'
+_seq = 0
+_is_helper = False
+
+
+def mark_helper():
+    global _is_helper
+    _is_helper = True
+
+
+def trace(event, **fields):
+    if not ON:
+        return
+    path = os.environ.get('JEDI_VERIF_TRACE')
+    if not path:
+        return
+    global _seq
+    _seq += 1
+    import json
+    pid = os.getpid()
+    if _is_helper:
+        path = '%s.helper.%s' % (path, pid)
+    fields.update(ev=event, seq=_seq, pid=pid, helper=_is_helper)
+    try:
+        with open(path, 'a') as f:
+            f.write(json.dumps(fields, default=repr) + '\n')
+    except OSError:
+        pass
